@@ -58,6 +58,17 @@ def evaluate(case, out):
     union = set().union(*[set(v) for v in per.values()]) if per else set()
     want = [i for i in order if i in union]
     try:
+        if case["seed"] % 2 == 0:
+            # an earlier draw with the same Contest objects: every card, numbers in reverse order (fresh card objects)
+            _, _, cv0, _ = sa.build(case)
+            for c, s in zip(cv0, reversed(case["plan"]["sample_nums"])):
+                c.sample_num = s
+            for cid, con in contests.items():
+                con.sample_size = sum(1 for c in cv0 if c.has_contest(cid))
+            CVR.consistent_sampling(cv0, contests)
+            for cid, con in contests.items():
+                con.sample_size = sizes[cid]
+            out.cls("after-an-earlier-draw")
         got = CVR.consistent_sampling(cvrs, contests)
     except Exception as e:  # noqa
         out.lib_exception("consistent_sampling", e)
